@@ -218,10 +218,10 @@ func init() {
 		return in.makeSlice(types.Typ[types.Uint8], n, n)
 	})
 	reg("internal/bytealg.IndexByteString", func(in *Interp, c *frame, fn *ssa.Function, a []Value) Value {
-		return mkConst(64, uint64(int64(in.findFirst(a[0].(Str), 0, strFromTerms([]*Term{a[1].(*Term)})))))
+		return in.indexByte(a[0].(Str), a[1].(*Term))
 	})
 	reg("internal/bytealg.IndexByte", func(in *Interp, c *frame, fn *ssa.Function, a []Value) Value {
-		return mkConst(64, uint64(int64(in.findFirst(bytesToStr(a[0]), 0, strFromTerms([]*Term{a[1].(*Term)})))))
+		return in.indexByte(bytesToStr(a[0]), a[1].(*Term))
 	})
 	reg("strings.IndexByte", intrinsics["internal/bytealg.IndexByteString"])
 	reg("bytes.IndexByte", intrinsics["internal/bytealg.IndexByte"])
@@ -482,4 +482,23 @@ func (in *Interp) compare(a, b Str) Value {
 	lt := in.strLess(a, b)
 	eq := in.strEq(a, b)
 	return tt.Ite(eq, mkConst(64, 0), tt.Ite(lt, mkConst(64, ^uint64(0)), mkConst(64, 1)))
+}
+
+// indexByte: position of the first occurrence of b in hay, or -1. With a
+// concrete haystack and a symbolic byte the result is a fork-free ite chain
+// over the single variable; otherwise the position is chosen by forking.
+func (in *Interp) indexByte(hay Str, b *Term) Value {
+	if hay.opaque {
+		panic(unsupported("search in opaque string"))
+	}
+	if hay.IsConcrete() && !b.IsConst() {
+		tt := in.tt
+		res := mkConst(64, ^uint64(0))
+		hs := hay.Concrete()
+		for i := len(hs) - 1; i >= 0; i-- {
+			res = tt.Ite(tt.Eq(b, mkConst(8, uint64(hs[i]))), mkConst(64, uint64(i)), res)
+		}
+		return res
+	}
+	return mkConst(64, uint64(int64(in.findFirst(hay, 0, strFromTerms([]*Term{b})))))
 }
